@@ -1,6 +1,214 @@
+/-
+C04 driver. Line kinds:
+  trunc <gen> <limit> <hex s> => <hex out>
+  dec   <gen> <hex s> => <rune> <size>
+  span  <gen> <attrCount> <valueLen> <eventCount> <linkCount> <perEvent> <perLink> <hex name> | <op> | <op> … =>
+        <#OnEnd calls> <snapshot handed to OnEnd> ## <the span read back through its ReadOnlySpan methods after the last op>
+  op  = sa|SA <kvs> · ev <hex name> <kvs> · ln|LN <tid>:<sid>:<ts> <kvs> · re <hex msg|-> <kvs> · st <code> <hex desc> · nm <hex> · end
+        (SA / LN = given to Tracer.Start as WithAttributes / WithLinks; same model ops)
+  kvs = `-` or `kv,kv,…`; kv = <hex key>=<value>; value = N | B:0/1 | I:<dec> | F:f<16 hex> | S:<hex> | BS:0;1 | IS:1;2 | FS:f…;f… | SS:x…;x…
+  snapshot = <hex name> <status code> <hex desc> <kvs> <dropped attrs> <events> <dropped events> <links> <dropped links>
+  events = `-` or `<hex name>~<kvs>~<dropped>+…`; links = `-` or `<tid>:<sid>:<ts>~<kvs>~<dropped>+…`
+-/
 import Otel.Base.Truncate
-open Otel Otel.Wire Otel.Utf8
+import Otel.C04.Model
+import Otel.C04.Spec
+open Otel Otel.Wire Otel.Utf8 Otel.C04
 
+namespace Otel.C04.Drv
+
+def splitOnTok (sep : String) (l : List String) : List (List String) :=
+  let r := l.foldl (fun (acc : List (List String) × List String) t =>
+    if t == sep then (acc.2.reverse :: acc.1, []) else (acc.1, t :: acc.2)) ([], [])
+  (r.2.reverse :: r.1).reverse
+
+def parseFloatBits (s : String) : Option UInt64 :=
+  match s.toList with
+  | 'f' :: rest =>
+    if rest.length = 16 then (parseHexChars rest).map (fun bs => bs.foldl (fun acc b => acc * 256 + b.toUInt64) 0)
+    else none
+  | _ => none
+
+def parseSeq {α : Type} (f : String → Option α) (p : String) : Option (List α) :=
+  if p.isEmpty then some [] else (p.splitOn ";").mapM f
+
+def parseBool (s : String) : Option Bool := if s == "1" then some true else if s == "0" then some false else none
+
+def parseValue (s : String) : Option Value :=
+  match s.splitOn ":" with
+  | ["N"] => some .invalid
+  | ["B", p] => (parseBool p).map .bool
+  | ["I", p] => p.toInt?.map .int
+  | ["F", p] => (parseFloatBits p).map .float
+  | ["S", p] => (parseHex p).map .str
+  | ["BS", p] => (parseSeq parseBool p).map .bools
+  | ["IS", p] => (parseSeq String.toInt? p).map .ints
+  | ["FS", p] => (parseSeq parseFloatBits p).map .floats
+  | ["SS", p] => (parseSeq parseHex p).map .strs
+  | _ => none
+
+def parseKV (s : String) : Option KV :=
+  match s.splitOn "=" with
+  | [k, v] => do pure ⟨← parseHex k, ← parseValue v⟩
+  | _ => none
+
+def parseKVs (s : String) : Option (List KV) :=
+  if s == "-" then some [] else (s.splitOn ",").mapM parseKV
+
+def parseSC (s : String) : Option SC :=
+  match s.splitOn ":" with
+  | [a, b, c] => do pure ⟨← a.toNat?, ← b.toNat?, ← c.toNat?⟩
+  | _ => none
+
+/-- reflect type string of `errors.New(…)`: external to the model (parameter of `Op.recordError`) -/
+def errorsNewType : Bytes :=
+  [0x2a, 0x65, 0x72, 0x72, 0x6f, 0x72, 0x73, 0x2e, 0x65, 0x72, 0x72, 0x6f, 0x72, 0x53, 0x74, 0x72, 0x69, 0x6e, 0x67]
+
+def parseOp : List String → Option Op
+  | ["sa", kvs] | ["SA", kvs] => (parseKVs kvs).map .setAttrs
+  | ["ev", n, kvs] => do pure (.addEvent (← parseHex n) (← parseKVs kvs))
+  | ["ln", sc, kvs] | ["LN", sc, kvs] => do pure (.addLink (← parseSC sc) (← parseKVs kvs))
+  | ["re", m, kvs] =>
+    if m == "-" then (parseKVs kvs).map (.recordError none)
+    else do pure (.recordError (some (errorsNewType, ← parseHex m)) (← parseKVs kvs))
+  | ["st", c, d] => do pure (.setStatus (← c.toNat?) (← parseHex d))
+  | ["nm", n] => (parseHex n).map .setName
+  | ["end"] => some .end_
+  | _ => none
+
+def parseItems {α : Type} (f : String → String → Nat → Option α) (s : String) : Option (List α) :=
+  if s == "-" then some []
+  else (s.splitOn "+").mapM (fun it =>
+    match it.splitOn "~" with
+    | [h, kvs, d] => do f h kvs (← d.toNat?)
+    | _ => none)
+
+def parseEvents : String → Option (List Event) :=
+  parseItems (fun h kvs d => do pure ⟨← parseHex h, ← parseKVs kvs, d⟩)
+
+def parseLinks : String → Option (List Link) :=
+  parseItems (fun h kvs d => do pure ⟨← parseSC h, ← parseKVs kvs, d⟩)
+
+def parseSnap : List String → Option Snap
+  | [n, c, d, kvs, da, evs, de, lns, dl] => do
+    pure { name := ← parseHex n, status := ⟨← c.toNat?, ← parseHex d⟩, attrs := ← parseKVs kvs,
+           droppedAttrs := ← da.toNat?, events := ← parseEvents evs, droppedEvents := ← de.toNat?,
+           links := ← parseLinks lns, droppedLinks := ← dl.toNat? }
+  | _ => none
+
+-- rendering (for the `model` field of the verdict / replay files)
+def hex16 (w : UInt64) : String :=
+  "f" ++ String.ofList ((List.range 8).reverse.flatMap (fun i => hexOfByte (UInt8.ofNat ((w.toNat >>> (8 * i)) % 256))))
+
+def rBool (b : Bool) : String := if b then "1" else "0"
+
+def renderValue : Value → String
+  | .invalid => "N"
+  | .bool b => "B:" ++ rBool b
+  | .int i => "I:" ++ toString i
+  | .float w => "F:" ++ hex16 w
+  | .str s => "S:" ++ hexOf s
+  | .bools l => "BS:" ++ ";".intercalate (l.map rBool)
+  | .ints l => "IS:" ++ ";".intercalate (l.map toString)
+  | .floats l => "FS:" ++ ";".intercalate (l.map hex16)
+  | .strs l => "SS:" ++ ";".intercalate (l.map hexOf)
+
+def renderKVs (l : List KV) : String :=
+  if l.isEmpty then "-" else ",".intercalate (l.map (fun a => hexOf a.key ++ "=" ++ renderValue a.val))
+
+def renderSC (c : SC) : String := s!"{c.tid}:{c.sid}:{c.ts}"
+
+def renderSnap (x : Snap) : String :=
+  let evs := if x.events.isEmpty then "-" else "+".intercalate (x.events.map (fun e => s!"{hexOf e.name}~{renderKVs e.attrs}~{e.dropped}"))
+  let lns := if x.links.isEmpty then "-" else "+".intercalate (x.links.map (fun l => s!"{renderSC l.sc}~{renderKVs l.attrs}~{l.dropped}"))
+  s!"{hexOf x.name} {x.status.code} {hexOf x.status.desc} {renderKVs x.attrs} {x.droppedAttrs} {evs} {x.droppedEvents} {lns} {x.droppedLinks}"
+
+-- branch accounting: which branches of the model an op takes in state `s`
+def itemTags (pfx : String) (limit : Int) (attrs : List KV) : List String :=
+  if limit = 0 then (if attrs.isEmpty then [pfx ++ "item-lim0-empty"] else [pfx ++ "item-lim0-drop"])
+  else if limit > 0 ∧ (attrs.length : Int) > limit then [pfx ++ "item-cut"]
+  else [pfx ++ "item-keep"]
+
+def queueTags {α : Type} (pfx : String) (cap : Int) (q : EQ α) : List String :=
+  if cap = 0 then [pfx ++ "cap0"]
+  else if cap > 0 ∧ (q.queue.length : Int) = cap then [pfx ++ "evict"]
+  else [pfx ++ "append"]
+
+def overCapTags (limit vlim : Int) : List KV × Nat → List KV → List String
+  | _, [] => []
+  | st, a :: tl =>
+    let t := if !a.valid then "oc-invalid"
+      else if hasKey st.1 a.key then "oc-update"
+      else if (st.1.length : Int) ≥ limit then "oc-drop" else "oc-append"
+    t :: overCapTags limit vlim (overCapStep limit vlim st a) tl
+
+def opTags (lim : Limits) (s : St) : Op → List String
+  | .setAttrs kvs =>
+    if kvs.isEmpty then ["sa-empty"]
+    else if s.ended then ["ended-noop"]
+    else
+      let cut := if kvs.any (fun a => a.valid && truncateAttr lim.valueLen a != a) then ["trunc-cut"] else []
+      let dup := if (dedupe (s.attrs ++ kvs.filter KV.valid)).length < (s.attrs ++ kvs.filter KV.valid).length then ["dup-key"] else []
+      if lim.attrCount = 0 then ["sa-lim0"]
+      else if lim.attrCount > 0 ∧ (s.attrs.length : Int) + kvs.length > lim.attrCount then
+        "sa-overcap" :: (if (dedupe s.attrs).length < s.attrs.length then ["oc-dedupe-shrinks"] else []) ++
+          overCapTags lim.attrCount lim.valueLen (dedupe s.attrs, s.droppedAttrs) kvs ++ cut ++ dup
+      else "sa-fast" :: (if kvs.any (fun a => !a.valid) then ["fast-invalid"] else []) ++ cut ++ dup
+  | .addEvent _ attrs =>
+    if s.ended then ["ended-noop"] else queueTags "ev-" lim.eventCount s.events ++ itemTags "ev-" lim.perEvent attrs
+  | .addLink sc attrs =>
+    if !sc.isValid && attrs.isEmpty && sc.ts == 0 then ["ln-skip"]
+    else if s.ended then ["ended-noop"] else queueTags "ln-" lim.linkCount s.links ++ itemTags "ln-" lim.perLink attrs
+  | .recordError none _ => ["re-nil"]
+  | .recordError (some _) attrs =>
+    if s.ended then ["ended-noop"]
+    else "re" :: queueTags "ev-" lim.eventCount s.events ++ itemTags "re-" lim.perEvent (attrs ++ [⟨[], .invalid⟩, ⟨[], .invalid⟩])
+  | .setStatus code _ =>
+    if s.ended then ["ended-noop"] else if s.status.code > code then ["st-ignored"]
+    else if code = 1 then ["st-error"] else ["st-other"]
+  | .setName _ => if s.ended then ["ended-noop"] else ["nm"]
+  | .end_ => if s.ended then ["end-again"] else (if dedupe s.attrs != s.attrs then ["end", "snap-dedupe"] else ["end"])
+
+def allTags (lim : Limits) : St → List Op → List String → List String
+  | _, [], acc => acc
+  | s, op :: tl, acc =>
+    let acc := (opTags lim s op).foldl (fun a t => if a.contains t then a else t :: a) acc
+    allTags lim (step lim s op) tl acc
+
+def trivialTags : List String :=
+  ["sa-fast", "sa-empty", "ev-append", "ln-append", "ev-item-keep", "ln-item-keep", "re-item-keep", "re", "st-error",
+   "st-other", "nm", "end"]
+
+def spanLine (ls : List String) (name0 : String) (rest obs : List String) : Option Verdict := do
+  let [a, b, c, d, e, f] := ls | none
+  let lim : Limits := ⟨← a.toInt?, ← b.toInt?, ← c.toInt?, ← d.toInt?, ← e.toInt?, ← f.toInt?⟩
+  let name ← parseHex name0
+  let groups := (splitOnTok "|" rest).filter (fun g => !g.isEmpty)
+  let ops ← groups.mapM parseOp
+  let (ends, obs') ← match obs with
+    | n :: tl => do pure (← n.toNat?, tl)
+    | [] => none
+  let [o1, o2] := splitOnTok "##" obs' | none
+  let atEnd ← parseSnap o1
+  let live ← parseSnap o2
+  let pre := ops.takeWhile (· != .end_)
+  let hasEnd := ops.any (· == .end_)
+  let mAtEnd := snapshot (run lim (init name) (pre ++ [.end_]))
+  let mFinal := snapshot (run lim (init name) ops)
+  let wantEnds := if hasEnd then 1 else 0
+  let agree := atEnd == mAtEnd && live == mFinal && ends == wantEnds
+  let ok := Spec.spanMatchesReference lim name ops atEnd && Spec.spanMatchesReference lim name ops live &&
+    Spec.exportWellFormed lim atEnd && Spec.exportWellFormed lim live && ends == wantEnds
+  let tags := (allTags lim (init name) ops []).reverse
+  let nontrivial := tags.any (fun t => !trivialTags.contains t)
+  pure { agree := agree, spec := if ok then "ok" else "FAIL", nontrivial := nontrivial,
+         branches := if tags.isEmpty then "-" else ",".intercalate tags,
+         -- the (long) canonical model result is only needed in replay files, i.e. when something is wrong
+         model := if agree && ok then "=" else s!"{wantEnds} {renderSnap mAtEnd} ## {renderSnap mFinal}" }
+
+end Otel.C04.Drv
+
+open Otel.C04.Drv in
 def stepLine (_ : Unit) (toks : List String) : Unit × Option Verdict :=
   let (inp, obs) := splitObs toks
   match inp, obs with
@@ -20,6 +228,8 @@ def stepLine (_ : Unit) (toks : List String) : Unit × Option Verdict :=
       let d := decode sb
       ((), some { agree := d == (rr, nn), spec := "na", nontrivial := nn > 1 || (rr == 0xFFFD), branches := s!"size{d.2}", model := s!"{d.1} {d.2}" })
     | _, _, _ => ((), none)
+  | "span" :: _ :: a :: b :: c :: d :: e :: f :: name0 :: rest, obs =>
+    ((), spanLine [a, b, c, d, e, f] name0 rest obs)
   | _, _ => ((), none)
 
 def main : IO Unit := Wire.run () stepLine
